@@ -5,9 +5,11 @@
     size on ANY handle that cannot scan the file (not seekable, or no read functions: a write-only handle) are refused by convention
     `code` — non-zero return value = the recorded error —, write nothing into the block and leave the handle as it was.
   * `calc_all_success_clean`: whenever these two report success (0) the error is 0 and the whole block is filled in.
-  * `calc_signal_max_refusal_full` is the same statement for SFC_CALC_SIGNAL_MAX / SFC_CALC_NORM_SIGNAL_MAX; the current code
-    violates it (KF-C09-CALC-SIGNAL-MAX-RET0): `calc_signal_max_refusal_returns_success` is the witness (a write-only WAV handle: the
-    model, like the library, answers 0), `calc_signal_max_refusal_partial` is what does hold for them (the handle is untouched).
+  * `calc_signal_max_refusal_convention` / `calc_signal_max_refusal_holds` are the same statement for SFC_CALC_SIGNAL_MAX /
+    SFC_CALC_NORM_SIGNAL_MAX at full strength (since the repair of KF-C09-CALC-SIGNAL-MAX-RET0: `return psf->error` behind the call);
+    `calc_signal_max_success_clean` is the converse.  The rule before the repair (`runOld`: the case ended in `break`) is kept:
+    `calc_signal_max_old_rule` (a write-only WAV handle and a GSM read handle were answered 0 with the error recorded) and
+    `calc_signal_max_refusal_old_rule` (the statement failed for it).
   * the seeded rule of round 8 (C09-calc-all-returns-false: `return SF_FALSE` in the shared guard) is `calcAllSeeded`; it is refuted
     by the same handle.
 -/
@@ -80,31 +82,110 @@ example : cannotScan wavW = true ∧ cannotScan gsmR = true ∧
     (run g0 (some gsmR) 0x1043 8 (some ⟨8, fun _ => 0⟩)).ret = .exact 40 ∧
     (run g0 (some { wavW with mode := .r }) 0x1042 16 (some ⟨16, fun _ => 0⟩)).ret = .exact 0 := by decide
 
-/-! ## SFC_CALC_SIGNAL_MAX / SFC_CALC_NORM_SIGNAL_MAX: the statement, the witness, the partial theorem -/
+/-! ## SFC_CALC_SIGNAL_MAX / SFC_CALC_NORM_SIGNAL_MAX: the statement at full strength, and the rule before the repair -/
+
+/-- the refusal statement for the pair under an arbitrary answer function (the current `run`, or the rule before the repair) -/
+def calcSignalMaxRefusal (f : G → H → Int → Mem → Res) : Prop :=
+  ∀ (g : G) (h : H) (cmd : Int) (m : Mem), (cmd = 0x1040 ∨ cmd = 0x1041) → cannotScan h = true →
+    ∃ v : Int, (f g h cmd m).ret = .exact v ∧ v ≠ 0
 
 def calc_signal_max_refusal_full : Prop :=
-  ∀ (g : G) (h : H) (cmd : Int) (m : Mem), (cmd = 0x1040 ∨ cmd = 0x1041) → cannotScan h = true →
-    ∃ v : Int, (run g (some h) cmd szDouble (some m)).ret = .exact v ∧ v ≠ 0
+  calcSignalMaxRefusal fun g h cmd m => run g (some h) cmd szDouble (some m)
 
-theorem calc_signal_max_refusal_returns_success :
-    (run g0 (some wavW) 0x1040 szDouble (some ⟨8, fun _ => 0⟩)).ret = .exact 0 ∧ cannotScan wavW = true := by decide
-
-theorem calc_signal_max_refusal_full_fails : ¬ calc_signal_max_refusal_full := by
-  intro hf
-  obtain ⟨v, hv, hne⟩ := hf g0 wavW 0x1040 ⟨8, fun _ => 0⟩ (Or.inl rfl) (by decide)
-  have h0 : (run g0 (some wavW) 0x1040 szDouble (some ⟨8, fun _ => 0⟩)).ret = .exact 0 := by decide
-  rw [h0] at hv
-  injection hv with hv
-  exact hne hv.symm
-
-/-- what does hold for the pair on every handle: the call is answered with 0, writes exactly the double and leaves the handle -/
-theorem calc_signal_max_refusal_partial (g : G) (h : H) (cmd : Int) (m : Mem) (hc : cmd = 0x1040 ∨ cmd = 0x1041) :
-    let r := run g (some h) cmd szDouble (some m)
-    r.ret = .exact 0 ∧ r.writes = [(0, szDouble)] ∧ r.h' = some h := by
+/-- the pair behind the size guard is `calcSignalMax false` -/
+theorem calc_signal_max_run (g : G) (h : H) (cmd : Int) (m : Mem) (hc : cmd = 0x1040 ∨ cmd = 0x1041) :
+    run g (some h) cmd szDouble (some m) = calcSignalMax false h := by
   have hcls : classify cmd = .k1040 := by rcases hc with rfl | rfl <;> decide
   have hpre : preHandle g (some h) cmd szDouble (some m) = none := by
     rcases hc with rfl | rfl <;> simp [preHandle]
   simp [run, hpre, withHandle, hcls, guardEq]
+
+/-- FULL STRENGTH (since the repair of KF-C09-CALC-SIGNAL-MAX-RET0): on ANY handle that cannot scan the file the pair is refused by
+    convention `code` — the non-zero return value is the recorded error —, and the handle is left as it was.  (The block receives the
+    0.0 psf_calc_signal_max returns: `writes` is the double.) -/
+theorem calc_signal_max_refusal_convention (g : G) (h : H) (cmd : Int) (m : Mem) (hc : cmd = 0x1040 ∨ cmd = 0x1041)
+    (hs : cannotScan h = true) :
+    let r := run g (some h) cmd szDouble (some m)
+    refusedRes .code r = true ∧ r.writes = [(0, szDouble)] ∧ r.h' = some h := by
+  rw [calc_signal_max_run g h cmd m hc]
+  simp only [cannotScan, Bool.or_eq_true, Bool.not_eq_true'] at hs
+  by_cases hk : h.seekable = true
+  · have hr : canRead h = false := by rcases hs with h1 | h1 <;> simp_all
+    simp [calcSignalMax, hk, hr, refusedRes, retInt, refusedBy, eUnimplemented]
+  · simp [calcSignalMax, hk, refusedRes, retInt, refusedBy, eNotSeekable]
+
+theorem calc_signal_max_refusal_holds : calc_signal_max_refusal_full := by
+  intro g h cmd m hc hs
+  have h1 := calc_signal_max_refusal_convention g h cmd m hc hs
+  simp only [refusedRes] at h1
+  show ∃ v : Int, (run g (some h) cmd szDouble (some m)).ret = .exact v ∧ v ≠ 0
+  generalize run g (some h) cmd szDouble (some m) = r at h1 ⊢
+  obtain ⟨h1, _, _⟩ := h1
+  cases hr : r.ret with
+  | exact v =>
+    refine ⟨v, rfl, ?_⟩
+    intro hv
+    subst hv
+    cases he : r.err <;> simp [hr, he, retInt, refusedBy] at h1
+  | among l => simp [hr, retInt] at h1
+  | undef => simp [hr, retInt] at h1
+
+/-- whenever the pair reports success (0) the handle can scan, the size is right and the double is written -/
+theorem calc_signal_max_success_clean (g : G) (h : H) (cmd : Int) (size : Nat) (data : Option Mem) (hc : cmd = 0x1040 ∨ cmd = 0x1041)
+    (h0 : (run g (some h) cmd size data).ret = .exact 0) :
+    cannotScan h = false ∧ (run g (some h) cmd size data).writes = [(0, szDouble)] ∧ size = szDouble := by
+  have hcls : classify cmd = .k1040 := by rcases hc with rfl | rfl <;> decide
+  have hpre : preHandle g (some h) cmd size data = none := by
+    rcases hc with rfl | rfl <;> simp [preHandle]
+  simp only [run, hpre, withHandle, hcls, guardEq] at h0 ⊢
+  cases data with
+  | none => simp [eBadParam] at h0
+  | some m =>
+    by_cases hsz : size = szDouble
+    · subst hsz
+      by_cases hk : h.seekable = true
+      · by_cases hr : canRead h = true
+        · simp [calcSignalMax, hk, hr, cannotScan]
+        · simp [calcSignalMax, hk, hr, eUnimplemented] at h0
+      · simp [calcSignalMax, hk, eNotSeekable] at h0
+    · simp [hsz, eBadParam] at h0
+
+-- non-vacuity: both kinds of handle, both error numbers, both ids; a read handle scans
+example : (run g0 (some wavW) 0x1040 8 (some ⟨8, fun _ => 0⟩)).ret = .exact 18 ∧
+    (run g0 (some wavW) 0x1041 8 (some ⟨8, fun _ => 0⟩)).err = some 18 ∧
+    (run g0 (some gsmR) 0x1041 8 (some ⟨8, fun _ => 0⟩)).ret = .exact 40 ∧
+    (run g0 (some { wavW with mode := .r }) 0x1040 8 (some ⟨8, fun _ => 0⟩)).ret = .exact 0 ∧
+    cannotScan { wavW with mode := .r } = false := by decide
+
+/-- the rule before the repair: the case ended in `break` (return 0) whatever psf_calc_signal_max had recorded -/
+def runOld (g : G) (h : H) (cmd : Int) (size : Nat) (data : Option Mem) : Res :=
+  if cmd = 0x1040 ∨ cmd = 0x1041 then
+    guardEq szDouble size data (some h) eBadParam (some eBadParam) fun _ => calcSignalMax true h
+  else run g (some h) cmd size data
+
+/-- KF-C09-CALC-SIGNAL-MAX-RET0 (repaired): under the old rule a write-only WAV handle was answered 0 with error 18 recorded … -/
+theorem calc_signal_max_old_rule :
+    (runOld g0 wavW 0x1040 szDouble (some ⟨8, fun _ => 0⟩)).ret = .exact 0 ∧
+    (runOld g0 wavW 0x1040 szDouble (some ⟨8, fun _ => 0⟩)).err = some eUnimplemented ∧ cannotScan wavW = true ∧
+    (runOld g0 gsmR 0x1041 szDouble (some ⟨8, fun _ => 0⟩)).ret = .exact 0 ∧
+    (runOld g0 gsmR 0x1041 szDouble (some ⟨8, fun _ => 0⟩)).err = some eNotSeekable := by decide
+
+/-- … so the full statement failed for it -/
+theorem calc_signal_max_refusal_old_rule : ¬ calcSignalMaxRefusal fun g h cmd m => runOld g h cmd szDouble (some m) := by
+  intro hf
+  obtain ⟨v, hv, hne⟩ := hf g0 wavW 0x1040 ⟨8, fun _ => 0⟩ (Or.inl rfl) (by decide)
+  have h0 : (runOld g0 wavW 0x1040 szDouble (some ⟨8, fun _ => 0⟩)).ret = .exact 0 := by decide
+  rw [h0] at hv
+  injection hv with hv
+  exact hne hv.symm
+
+/-- the two rules differ in nothing but the return value of a refused call -/
+theorem calc_signal_max_old_rule_differs_only_in_ret (h : H) :
+    { calcSignalMax true h with ret := (calcSignalMax false h).ret } = calcSignalMax false h := by
+  unfold calcSignalMax
+  split
+  · rfl
+  · split <;> rfl
 
 /-! ## the seeded rule (C09-calc-all-returns-false) -/
 
